@@ -5,10 +5,15 @@ import RepeVerif.Driver.Common
 Driver for the `commit` correspondence family (C10).
 
 ```
-SCRIPT := <puller> <comp none|zstd> <fmt beve|raw> <open ok|err|cut> <verify ok|rej|panic> <trailer N>
-          <dest old|none|dir|olds|nones|noparent|symparent> <stop -|N> <dec -|err|B> <fault -|N|sync> wire <resp>…
+SCRIPT := <puller> <comp none|zstd> <fmt beve|raw> <open ok|err|cut> <verify ok|rej|panic|panics|panicv|slow> <trailer N>
+          <dest old|none|dir|olds|nones|noparent|symparent> <stop -|N> <dec -|err|B> <fault -|N|sync|dN|pN> wire <resp>…
   puller := file | bevezst | beve | trailer | fileasync | verifiedasync | trailerasync
-            (an async puller may carry the suffix `@ws`: driven over a WebSocketClient; same model)
+            suffixes the model does not look at: `@ws` (async puller over a WebSocketClient), `@ps` (entered
+            through `pull_stream`), `@s<N>` (presentation style of the scripted peer: query bytes of the
+            last flag, error codes, stream ids, format codes, resource names)
+  verify := panic / panics / panicv = verify panics with a String / &'static str / other payload;
+            slow = accepts after a delay
+  fault dN / pN := the caller's digest sink returns Err / panics once more than N bytes were fed
   resp   := c:<B>:<0|1>  (chunk body, last flag) | e (error response) | x (connection cut)
   B      := <H> (hex) | g<seed>.<len> (`genBytes seed len`, for large bodies)
   fault  := N: the temp file takes N bytes and the write of the next one fails (the pulling child runs
@@ -25,6 +30,9 @@ trace <i> SCRIPT :: <sys>…        -> <i> trace <accept|reject@pos> <match|expe
                                                  failed rename, unlink of the temp file, D = dest touched)
 kill <i> <syscall>:<N> SCRIPT :: <same|L:FNV>   -> <i> kill <ok|BAD>   (destination observed after SIGKILL on
                                                   entry to the N-th such syscall on the two paths)
+seq <i> <old:H|none> SCRIPT :: SCRIPT :: …   -> <i> | ret .. dest <absent|L:FNV> tmp .. | …
+                                     (one client, one destination: the state that outlives a call is the file
+                                     system and whether an earlier step ran into a cut — then every call fails)
 sibling <i> <name H>              -> <i> temp <H>   (name of the temp sibling: `tempSibling Gen.Commit.tempSuffix`)
 nest <i> <nameA H> <nameB H> SCRIPT_A :: SCRIPT_B
                                   -> <i> A ret .. dest .. tmp .. B ret .. dest .. tmp ..  | <i> alias
@@ -77,6 +85,8 @@ structure Parsed where
   codec : Codec
   stale : Bool := false   -- a stale temp file exists before the pull
   verifyPanics : Bool := false
+  digestPanics : Bool := false   -- fault `pN`: the digest sink panics (instead of `Err`) past N bytes
+  openCut : Bool := false        -- `open` was answered by closing the connection
 
 def compOf : String → Option Comp
   | "none" => some .none | "zstd" => some .zstd | _ => none
@@ -91,17 +101,21 @@ def parseScript (ws : List String) : Option (Parsed × List String) :=
   | pu :: co :: fm :: op :: ve :: tr :: de :: st :: dc :: wf :: "wire" :: rest =>
     let wireWs := rest.takeWhile (· ≠ "::")
     let after := (rest.dropWhile (· ≠ "::")).drop 1
-    match pullerOf (if pu.endsWith "@ws" then (pu.dropEnd 3).toString else pu), compOf co, allSome (wireWs.map respOf), decOf dc with
+    match pullerOf ((pu.splitOn "@").headD ""), compOf co, allSome (wireWs.map respOf), decOf dc with
     | some p, some comp, some wire, some dec =>
-      if (fm = "beve" ∨ fm = "raw") ∧ (op = "ok" ∨ op = "err" ∨ op = "cut") ∧ (ve = "ok" ∨ ve = "rej" ∨ ve = "panic")
-          ∧ (de = "old" ∨ de = "none" ∨ de = "dir" ∨ de = "olds" ∨ de = "nones" ∨ de = "noparent" ∨ de = "symparent") ∧ tr.isNat ∧ (st = "-" ∨ st.isNat) ∧ (wf = "-" ∨ wf = "sync" ∨ wf.isNat) then
+      if (fm = "beve" ∨ fm = "raw") ∧ (op = "ok" ∨ op = "err" ∨ op = "cut") ∧ (ve = "ok" ∨ ve = "rej" ∨ ve = "panic" ∨ ve = "panics" ∨ ve = "panicv" ∨ ve = "slow")
+          ∧ (de = "old" ∨ de = "none" ∨ de = "dir" ∨ de = "olds" ∨ de = "nones" ∨ de = "noparent" ∨ de = "symparent") ∧ tr.isNat ∧ (st = "-" ∨ st.isNat) ∧ (wf = "-" ∨ wf = "sync" ∨ wf.isNat ∨ ((wf.startsWith "d" ∨ wf.startsWith "p") ∧ (wf.drop 1).toString.isNat)) then
         let stop := if st = "-" then none else some (natOf st)
         if stop.isSome ∧ !p.usesWriteFile then none else
         some (⟨p, { openOk := op = "ok", comp := comp, beve := fm = "beve", wire := wire, stop := stop,
-                    verifyOk := ve = "ok", trailer := natOf tr, renameOk := de ≠ "dir",
-                    writeFault := if wf = "-" ∨ wf = "sync" then none else some (natOf wf),
+                    verifyOk := ve = "ok" ∨ ve = "slow", trailer := natOf tr, renameOk := de ≠ "dir",
+                    -- a digest sink that refuses past N bytes fails the copy exactly like a file that takes N
+                    -- bytes (only the pullers that have a digest: the verifying ones)
+                    writeFault := if wf = "-" ∨ wf = "sync" then none
+                      else if wf.startsWith "d" ∨ wf.startsWith "p" then (if p.verifies then some (natOf (wf.drop 1).toString) else none)
+                      else some (natOf wf),
                     syncOk := wf ≠ "sync", createOk := de ≠ "noparent" },
-                ⟨fun _ => dec, fun _ => []⟩, de = "olds" ∨ de = "nones", ve = "panic"⟩, after)
+                ⟨fun _ => dec, fun _ => []⟩, de = "olds" ∨ de = "nones", ve.startsWith "panic", wf.startsWith "p", op = "cut"⟩, after)
       else none
     | _, _, _, _ => none
   | _ => none
@@ -142,6 +156,13 @@ def scriptObs (q : Parsed) : String :=
   -- the call unwinds instead of returning `Err` exactly when `verify` is reached
   let reached := q.verifyPanics && q.p.verifies &&
     (run Gen.Commit.steps q.p { q.s with verifyOk := true, renameOk := true } q.codec).ret == .ok
+  -- a digest sink that panics: same file-system effect as one that returns `Err`; the blocking puller
+  -- unwinds, the async ones report the dead consumer task as `Err`
+  let bites := q.s.openOk && preOk q.p q.s && !(limitWrites q.s.writeFault (envOf0 q.p q.s q.codec).writes).2
+  let reached := reached || (q.digestPanics && q.p.verifies && !q.p.isAsync && bites)
+  -- `TrailerHold::new` reserves `trailer_len` bytes: beyond isize::MAX that is a capacity-overflow panic
+  -- (after the temp file was created; the unwinding removes it)
+  let reached := reached || (q.p.hasTrailer && q.s.trailer > 2^63 - 1 && !q.p.isAsync && q.s.openOk && preOk q.p q.s)
   let base := joinSp ["ret", if reached then "panic" else showRet r.ret, "dest", dest, "tmp", if fs.tmp.isSome then "1" else "0"]
   if q.p.hasTrailer ∧ r.ret = .ok then
     let h := Hold.run q.s.trailer (decoded q.p q.s q.codec).writes
@@ -157,9 +178,49 @@ def killStates (q : Parsed) : List String :=
       | some c => digest c
       | none => "gone"
 
-def valueObs (async : Bool) (comp : Comp) (need : Nat) (dec : Option Bytes) (openOk beve : Bool) (wire : Wire) : String :=
-  if !openOk || !beve then "ret err" else
-  let d : Decoder Bytes := ⟨fun acc => if acc.length ≥ need then some (acc.take need) else none, fun _ => none⟩
+/-- The pull of this script runs into a connection cut: the client is dead afterwards. -/
+def hitsCut (q : Parsed) : Bool :=
+  if q.openCut then true
+  else if !q.s.openOk || !preOk q.p q.s then false
+  else
+    let rec go : Wire → Bool
+      | [] => true
+      | .chunk _ false :: r => go r
+      | .chunk _ true :: _ => false
+      | .error :: _ => false
+      | .cut :: _ => true
+    go q.s.wire
+
+/-- Pulls through one client into one destination: the file system and the connection's liveness are the
+only state that outlives a call. -/
+def seqObs : FS → Bool → List Parsed → List String
+  | _, _, [] => []
+  | fs, alive, q :: rest =>
+    let q' : Parsed := if alive then q else { q with s := { q.s with openOk := false } }
+    let r := runOf q'
+    let fs' := runOps fs r.ops
+    let d := match fs'.dest with
+      | some c => digest c
+      | none => "absent"
+    joinSp ["| ret", showRet r.ret, "dest", d, "tmp", if fs'.tmp.isSome then "1" else "0"] ::
+      seqObs fs' (alive && !hitsCut q) rest
+
+partial def parseMany (ws : List String) : Option (List Parsed) :=
+  match parseScript ws with
+  | some (q, []) => some [q]
+  | some (q, rest) => (parseMany rest).map (q :: ·)
+  | none => none
+
+def valueObs (mode : String) (comp : Comp) (need : Nat) (dec : Option Bytes) (openOk beve : Bool) (wire : Wire) : String :=
+  let async := mode.endsWith "async"
+  let base := if async then (mode.dropEnd 5).toString else mode
+  let base := if base = "" then "sync" else base
+  -- pull_to_vec / pull_consume place no format constraint and read to EOF; the others decode BEVE
+  let toEnd := base = "vec" ∨ base = "consume" ∨ base = "consumeerr" ∨ base = "consumepanic"
+  if !openOk || (!beve && !toEnd) then "ret err" else
+  if base = "consumepanic" then (if async then "ret err" else "ret panic") else
+  let d : Decoder Bytes := if toEnd then ⟨fun _ => none, fun acc => some acc⟩
+    else ⟨fun acc => if acc.length ≥ need then some (acc.take need) else none, fun _ => none⟩
   -- a compressed stream reaches the value decoder as far as it decompresses: `dec` = the stream
   -- decoder's output on the delivered bytes (recorded by the harness), then EOF iff `last` was reached
   let wire' : Wire := match comp with
@@ -168,7 +229,7 @@ def valueObs (async : Bool) (comp : Comp) (need : Nat) (dec : Option Bytes) (ope
         [if (payload wire).isSome then .chunk [] true else .cut]
   let v := if async then valueAsync Gen.Commit.pullResFirst d false wire' else valueSync d wire'
   match v with
-  | some bs => "ret ok " ++ digest bs
+  | some bs => if base = "consumeerr" then "ret err" else "ret ok " ++ digest bs
   | none => "ret err"
 
 def step (st : Unit) (ws : List String) : Unit × String :=
@@ -190,6 +251,13 @@ def step (st : Unit) (ws : List String) : Unit × String :=
         (st, joinSp [idx, "trace", acc, if same then "match" else "expected:" ++ ",".intercalate (want.map showSys)])
       | none => (st, idx ++ " bad-op")
     | none => (st, idx ++ " bad-op")
+  | "seq" :: idx :: init :: rest =>
+    let fs0 : Option FS := if init = "none" then some ⟨none, none⟩
+      else if init.startsWith "old:" then (bytesOfHex (init.drop 4).toString).map fun b => ⟨some b, none⟩
+      else none
+    match fs0, parseMany rest with
+    | some fs, some qs => (st, joinSp (idx :: seqObs fs true qs))
+    | _, _ => (st, idx ++ " bad-op")
   | ["sibling", idx, nm] =>
     match bytesOfHex nm with
     | some b => (st, idx ++ " temp " ++ hexOfBytes (b ++ Gen.Commit.tempSuffix.toUTF8.toList))
@@ -222,8 +290,9 @@ def step (st : Unit) (ws : List String) : Unit × String :=
   | "value" :: idx :: mode :: co :: fm :: op :: "need" :: nd :: dc :: "wire" :: rest =>
     match compOf co, allSome (rest.map respOf), decOf dc with
     | some comp, some wire, some dec =>
-      if (mode = "sync" ∨ mode = "async") ∧ nd.isNat ∧ (fm = "beve" ∨ fm = "raw") ∧ (op = "ok" ∨ op = "err" ∨ op = "cut") then
-        (st, idx ++ " " ++ valueObs (mode = "async") comp (natOf nd) dec (op = "ok") (fm = "beve") wire)
+      if ["sync", "async", "stream", "vec", "vecasync", "typed", "typedasync", "complex", "complexasync", "consume", "consumeasync",
+          "consumeerr", "consumeerrasync", "consumepanic", "consumepanicasync"].contains mode ∧ nd.isNat ∧ (fm = "beve" ∨ fm = "raw") ∧ (op = "ok" ∨ op = "err" ∨ op = "cut") then
+        (st, idx ++ " " ++ valueObs mode comp (natOf nd) dec (op = "ok") (fm = "beve") wire)
       else (st, idx ++ " bad-op")
     | _, _, _ => (st, idx ++ " bad-op")
   | _ => (st, "bad-op")
